@@ -192,6 +192,62 @@ func commonTypeFamily() *core.Family {
 	}
 }
 
+// (b2) common types spread over two namespaces: an unqualified reference inside NS
+// resolves to NS::T if declared there and otherwise falls back to the top-level T, so a
+// cycle can cross the namespace boundary through either spelling.
+func commonTypeNamespaceFamily() *core.Family {
+	opts := 1 + 3*3
+	mk := func(o int) (sast.IsType, string) {
+		if o == 0 {
+			return sast.Long(), "Long"
+		}
+		j := (o - 1) % 3
+		tn := "T" + string(names[j])
+		switch (o - 1) / 3 {
+		case 0:
+			return sast.Type(types.Path(tn)), tn
+		case 1:
+			return sast.Type(types.Path("NS::" + tn)), "NS::" + tn
+		}
+		return sast.Set(sast.Type(types.Path(tn))), "Set<" + tn + ">"
+	}
+	per := opts * opts * opts
+	n := int64(8 * per)
+	return &core.Family{
+		Name:       "common-types-across-namespaces",
+		Desc:       fmt.Sprintf("every placement of three common types in {top level, namespace NS} (8) x all %d assignments of bodies {Long, Tj, NS::Tj, Set<Tj>}: cycles through unqualified references that fall back to the top level, through qualified references, and mixed; used by entities and actions of both namespaces", per),
+		N:          n,
+		Isolated:   true,
+		CrashClass: func(i int64) string { return "common-types-across-namespaces" },
+		Run: func(t *core.T, i int64) {
+			x := int(i)
+			place := x / per
+			x %= per
+			top := sast.Namespace{CommonTypes: sast.CommonTypes{}, Entities: sast.Entities{}, Actions: sast.Actions{}}
+			ns := sast.Namespace{CommonTypes: sast.CommonTypes{}, Entities: sast.Entities{}, Actions: sast.Actions{}}
+			var desc []string
+			for k := 0; k < 3; k++ {
+				body, d := mk(x % opts)
+				x /= opts
+				tn := types.Ident("T" + string(names[k]))
+				if place>>k&1 == 1 {
+					ns.CommonTypes[tn] = sast.CommonType{Type: body}
+					desc = append(desc, fmt.Sprintf("NS { type %s = %s }", tn, d))
+				} else {
+					top.CommonTypes[tn] = sast.CommonType{Type: body}
+					desc = append(desc, fmt.Sprintf("type %s = %s", tn, d))
+				}
+			}
+			top.Entities["E"] = sast.Entity{Shape: sast.RecordType{"f": sast.Attribute{Type: sast.Type("TA")}, "g": sast.Attribute{Type: sast.Type("NS::TB"), Optional: true}}}
+			ns.Entities["F"] = sast.Entity{Shape: sast.RecordType{"f": sast.Attribute{Type: sast.Type("TA")}, "h": sast.Attribute{Type: sast.Set(sast.Type("TC"))}}, Tags: sast.Type("TB")}
+			top.Actions["act"] = sast.Action{AppliesTo: &sast.AppliesTo{Principals: []sast.EntityTypeRef{"E"}, Resources: []sast.EntityTypeRef{"NS::F"}, Context: sast.RecordType{"c": sast.Attribute{Type: sast.Type("TC")}}}}
+			s := &sast.Schema{CommonTypes: top.CommonTypes, Entities: top.Entities, Actions: top.Actions, Namespaces: sast.Namespaces{"NS": ns}}
+			resolveAndRun(t, "common-types-ns", strings.Join(desc, "; "), s)
+			t.Sample(strings.Join(desc, "; "))
+		},
+	}
+}
+
 // (c) action-group digraphs over 3 actions: 2^9
 func actionFamily() *core.Family {
 	return &core.Family{
@@ -374,7 +430,7 @@ func Check() *core.Check {
 			"a case is non-trivial if the schema resolved (so the validation battery ran)",
 		Assumptions: []string{"pairs of dimensions are not combined (one dimension at a time)", "a nil type inside a programmatically built schema AST is outside the domain (no decoder produces one)"},
 		Families: func(tier string) []*core.Family {
-			return []*core.Family{referenceFamily(), hierarchyFamily(), commonTypeFamily(), actionFamily()}
+			return []*core.Family{referenceFamily(), hierarchyFamily(), commonTypeFamily(), commonTypeNamespaceFamily(), actionFamily()}
 		},
 	}
 }
